@@ -132,6 +132,11 @@ func init() {
 					}
 				}
 			}
+			// three workers for the cheapest stage (worker-count arithmetic)
+			if tier != "thorough" {
+				js = append(js, JobSpec{Group: "fork", Harness: "VForkForEach", Mode: "bmc", K: 40,
+					Params: map[string]int{"par": 3, "n": 1, "cap": 0, "void": 1, "cancel": 0, "take": -1}})
+			}
 			// long jobs first
 			sort.SliceStable(js, func(a, b int) bool { return c09Weight(js[a]) > c09Weight(js[b]) })
 			return js
